@@ -104,7 +104,7 @@ func GenHistory(r *lib.Rng, e *Env, name string, t0 int64, w Weights, steps int,
 		case x < w.Session:
 			b := pick("session")
 			id := T1
-			if tp, ok := b.Claims["topic"].(string); ok && !r.Chance(1, 6) {
+			if tp, ok := b.Claims["topic"].(string); ok && tp != "" && !r.Chance(1, 6) { // ("/session/" has no route)
 				id = tp
 			} else if r.Chance(1, 2) {
 				id = T2
